@@ -253,6 +253,14 @@ Theorem C15_offered_mask_cflist_encodes : forall (s : st) (v : pversion) ms,
 Proof. exact offered_mask_cflist_encodes. Qed.
 Print Assumptions C15_offered_mask_cflist_encodes.
 
+(* the three bytes after the six channel-masks are RFU: the decoded masks do not depend
+   on them and there are at most six (code after fix e2c2b92, finding C06-2) *)
+Theorem C15_mask_cflist_rfu_ignored : forall body (r1 r2 r3 r1' r2' r3' : Z), List.length body = 12%nat ->
+  cflist_unmarshal (body ++ [r1; r2; r3; 1]) = cflist_unmarshal (body ++ [r1'; r2'; r3'; 1]) /\
+  exists ms, cflist_unmarshal (body ++ [r1; r2; r3; 1]) = Ok (CFMasks ms) /\ (List.length ms <= 6)%nat.
+Proof. exact cflist_masks_rfu_ignored. Qed.
+Print Assumptions C15_mask_cflist_rfu_ignored.
+
 Theorem C15_mask_cflist_exact_when_last_nonzero : forall ms,
   ms <> [] -> all_false (last ms []) = false -> strip_trailing_zero_masks ms = ms.
 Proof. exact strip_id. Qed.
